@@ -64,9 +64,56 @@ REF_FUNCS: Dict[str, Callable] = {
 }
 
 
+# a USER namespace whose members are named like the functions fsic replaces (exp, log, max, min): `my.exp(x)` is a
+# namespaced function and must be left alone, not turned into np.exp(x) / max(...)
+UF_MY = {n: z3.Function('uf_my_' + n, F64, F64) for n in ('exp', 'log')}
+UF_MY2 = {n: z3.Function('uf_my_' + n, F64, F64, F64) for n in ('max', 'min')}
+
+
+def _my1(name):
+    def f(x):
+        if isinstance(x, (int, float, np.floating)):
+            return _c_my1(name)(x)
+        return SFloat(UF_MY[name](_sf(x).t))
+    return f
+
+
+def _my2(name):
+    def f(a, b):
+        if all(isinstance(v, (int, float, np.floating)) for v in (a, b)):
+            return _c_my2(name)(a, b)
+        return SFloat(UF_MY2[name](_sf(a).t, _sf(b).t))
+    return f
+
+
+def _c_my1(name):
+    return (lambda x: float(x) * 3.0 + 0.25) if name == 'exp' else (lambda x: float(x) * 0.5 - 1.75)
+
+
+def _c_my2(name):
+    return (lambda a, b: float(a) + 2.0 * float(b)) if name == 'max' else (lambda a, b: 3.0 * float(a) - float(b))
+
+
+class _Namespace:
+    pass
+
+
+MY_SYM = _Namespace()
+MY_CON = _Namespace()
+for _n in ('exp', 'log'):
+    setattr(MY_SYM, _n, _my1(_n))
+    setattr(MY_CON, _n, _c_my1(_n))
+for _n in ('max', 'min'):
+    setattr(MY_SYM, _n, _my2(_n))
+    setattr(MY_CON, _n, _c_my2(_n))
+for _n in ('exp', 'log', 'max', 'min'):
+    REF_FUNCS['my.' + _n] = getattr(MY_SYM, _n)
+
+
 def install_user_functions() -> None:
-    """`myexp` is a user function the generated code finds in fsic.parser's globals."""
+    """`myexp` and the namespace `my` are user code the generated code finds in fsic.parser's globals."""
     fparser.myexp = _myexp
+    fparser.my = MY_SYM
 
 
 class _NS:
@@ -216,7 +263,7 @@ def equivalence(prog: Program, ref: Dict[str, Any], Model, symbols, *, spelling:
             for n in names:
                 setattr(selfobj, '_' + n, tser[n])
             ns = {'exp': _exp, 'log': _log, 'max': max, 'min': min, 'abs': abs, 'np': np,
-                  'myexp': _myexp, 'self': selfobj}
+                  'myexp': _myexp, 'my': MY_SYM, 'self': selfobj}
             ns.update(tser)  # series names win (programs using a name both ways are outside the grammar)
             ns['t'] = t
 
@@ -323,6 +370,7 @@ def replay_values(prog: Program, Model, w: dict, runner: Optional[Callable] = No
     L, t = w['L'], w['t']
     names = list(w['series'])
     fparser.myexp = _c_myexp
+    fparser.my = MY_CON
     try:
         for trial in range(4):
             data = {n: (list(w['series'][n]) if trial == 0 else [rng.uniform(0.5, 3.0) for _ in range(L)]) for n in names}
@@ -345,6 +393,8 @@ def replay_values(prog: Program, Model, w: dict, runner: Optional[Callable] = No
                 io = _outcome(impl)
                 funcs = dict(REF_FUNCS)
                 funcs['myexp'] = _c_myexp
+                for _k in ('exp', 'log', 'max', 'min'):
+                    funcs['my.' + _k] = getattr(MY_CON, _k)
                 ro = _outcome(lambda: (ref_runner or run_reference)(prog, Env(ser, t, funcs, strict_L=L)))
             if io != ro:
                 bad.append(f'trial {trial}: outcome impl={io} ref={ro} (t={t}, L={L})')
@@ -364,7 +414,7 @@ def replay_values(prog: Program, Model, w: dict, runner: Optional[Callable] = No
                 selfobj = _NS()
                 for n in names:
                     setattr(selfobj, '_' + n, tser[n])
-                ns = {'exp': np.exp, 'log': np.log, 'max': max, 'min': min, 'abs': abs, 'np': np, 'myexp': _c_myexp,
+                ns = {'exp': np.exp, 'log': np.log, 'max': max, 'min': min, 'abs': abs, 'np': np, 'myexp': _c_myexp, 'my': MY_CON,
                       'self': selfobj}
                 ns.update(tser)
                 ns['t'] = t
